@@ -126,6 +126,25 @@ theorem C12_user_clean (sf : SpokFile) (cwd : Str) (fs : FS) (run : FS → FS ×
   · simp only [handleClean, h, if_true]
     cases (run fs).2 <;> simp
 
+/-- a user-defined `clean` task that FAILS: the invocation fails and the tree is what the task's run left — spok's own
+    clean is not run instead, nothing is removed by spok -/
+theorem C12_user_clean_fails (sf : SpokFile) (cwd : Str) (fs : FS) (run : FS → FS × Bool)
+    (hclean : sf.hasTask cleanName = true) (hfail : (run fs).2 = false) :
+    (handleClean sf cwd fs run).err = some .taskFailed ∧ (handleClean sf cwd fs run).fs = (run fs).1 := by
+  simp [handleClean, hclean, hfail]
+
+theorem C12_judge_accepts_model_failing (sf : SpokFile) (cwd : Str) (fs : FS) (run : FS → FS × Bool)
+    (hclean : sf.hasTask cleanName = true)
+    (hrun : (run fs).2 = false ∧ (∀ e ∈ fs, e ∈ (run fs).1) ∧ ∀ e ∈ (run fs).1, e ∈ fs ∨ e.1 = pathOf sf.cacheDir) :
+    c12failing sf (obsOfModel sf cwd fs run true) = true := by
+  obtain ⟨h1, h2⟩ := C12_user_clean_fails sf cwd fs run hclean hrun.1
+  simp only [c12failing, obsOfModel, h1, h2, Bool.and_eq_true, List.all_eq_true, Bool.or_eq_true, decide_eq_true_eq,
+    List.contains_iff_mem]
+  refine ⟨⟨⟨trivial, by simp⟩, fun e he => hrun.2.1 e he⟩, fun e he => ?_⟩
+  rcases hrun.2.2 e he with h | h
+  · exact .inl h
+  · exact .inr h
+
 /-! ## the judge accepts the model -/
 
 /-- Whatever the model does is accepted by the executable judge `c12` (which the check run applies to what
